@@ -12,6 +12,8 @@ use crate::registry::{DynPart, Gen};
 #[derive(Debug, Clone)]
 pub enum Step {
     Op(SetOp, usize),
+    /// many operations applied as one step (part `local-bulk`): the checks run after the whole run
+    Bulk(Vec<SetOp>, usize),
     Purge,
 }
 
@@ -99,6 +101,7 @@ impl Prop for Local {
                     j["source"] = json!(src);
                     j
                 },
+                Step::Bulk(..) => json!("bulk"),
                 Step::Purge => json!("purge"),
             })
             .collect::<Vec<_>>())
@@ -134,7 +137,40 @@ fn probes(t: Stamp) -> Vec<Stamp> {
     v
 }
 
-fn check_rejected(set: &Set, key: u64, t_d: Stamp, when: &str) -> Result<(), crate::core::Fail> {
+/// The same facts for a set with thousands of entries: every probe through `will_apply`, the purged stamp itself also
+/// applied to a clone (both operation kinds, both sources) and observed through `get`.
+fn check_rejected_light(set: &Set, key: u64, t_d: Stamp, when: &str) -> Result<(), crate::core::Fail> {
+    for p in probes(t_d) {
+        for k in [key, 777_777_777] {
+            ensure!(
+                !set.will_apply(k, p.hlc()),
+                "purged-delete-not-rejected",
+                "{when}: tombstone ({key},{:?}) was purged, yet will_apply({k},{:?}) is true",
+                t_d,
+                p
+            );
+        }
+    }
+    for source in 0..2 {
+        for delete in [false, true] {
+            let mut c = set.clone();
+            let r = apply(&mut c, source, &SetOp { key, stamp: t_d, delete });
+            ensure!(
+                !r && c.get(&key) == set.get(&key),
+                "purged-delete-not-rejected",
+                "{when}: tombstone ({key},{:?}) was purged, yet {} of the key at that stamp via source {source} returned {r} / changed the set",
+                t_d,
+                if delete { "delete" } else { "insert" }
+            );
+        }
+    }
+    Ok(())
+}
+
+fn check_rejected(set: &Set, key: u64, t_d: Stamp, when: &str, big: bool) -> Result<(), crate::core::Fail> {
+    if big {
+        return check_rejected_light(set, key, t_d, when);
+    }
     let before = view(set);
     for p in probes(t_d) {
         for k in [key, 777_777] {
@@ -164,14 +200,124 @@ fn check_rejected(set: &Set, key: u64, t_d: Stamp, when: &str) -> Result<(), cra
     Ok(())
 }
 
+/// Part `local-bulk` (added after the seeded change `C08l`): the same facts on a replica that holds hundreds to
+/// thousands of tombstones at once, so that anything a purge does in batches, pages or bounded buffers is crossed.
+pub struct LocalBulk;
+
+pub const BULK_SIZES: [usize; 14] = [1, 2, 63, 64, 65, 255, 256, 257, 1023, 1024, 1025, 2049, 4097, 9000];
+
+impl Prop for LocalBulk {
+    type Case = Case;
+
+    fn id(&self) -> &'static str {
+        "C08"
+    }
+
+    fn part(&self) -> &'static str {
+        "local-bulk"
+    }
+
+    fn width(&self) -> usize {
+        120
+    }
+
+    fn gen(&self, src: &mut Src) -> Case {
+        let nodes: Vec<u8> = match src.below(3) {
+            0 => vec![1],
+            1 => vec![1, 2],
+            _ => vec![0, 9, 255],
+        };
+        let mut t = *src.pick(&[100_000u64, 3_700, 1_000_000]);
+        let mut steps = vec![];
+        let n_stages = 2 + src.below(6);
+        let mut next_key = 1u64;
+        for _ in 0..n_stages {
+            t += *src.pick(&[1u64, 600, 1_800, 3_599, 3_600, 3_601, 7_200]);
+            let node = *src.pick(&nodes);
+            let source = src.below(2);
+            match src.weighted(&[4, 3, 2]) {
+                // a bulk of deletes (one shared time, ascending counters: what del_many / a batch carries), on fresh
+                // keys or on keys an earlier stage wrote
+                0 | 1 => {
+                    let n = *src.pick(&BULK_SIZES);
+                    let first = if next_key > 1 && src.chance(1, 2) { 1 + src.below64(next_key) } else { next_key };
+                    let delete = src.weighted(&[3, 1]) == 0;
+                    let shared = src.chance(1, 3);
+                    let ops = (0..n)
+                        .map(|i| SetOp {
+                            key: first + i as u64,
+                            stamp: Stamp { secs: t + if shared { 0 } else { (i / 60_000) as u64 }, frac: 0, counter: if shared { 0 } else { (i % 60_000) as u16 }, node },
+                            delete,
+                        })
+                        .collect::<Vec<_>>();
+                    next_key = next_key.max(first + n as u64);
+                    // a shared stamp is legal only for distinct keys of ONE bulk request, which is what this is
+                    steps.push(Step::Bulk(ops, source));
+                },
+                // a single recent operation (keeps tombstones that are NOT purgeable in the set, moves cut-offs)
+                _ => {
+                    let key = 1 + src.below64(next_key.max(2));
+                    let delete = src.chance(1, 2);
+                    steps.push(Step::Op(SetOp { key, stamp: Stamp { secs: t, frac: *src.pick(&[0u8, 1, 249]), counter: 0, node }, delete }, source));
+                    // the same origin seen on the other source too, so that its cut-off really advances
+                    if src.chance(1, 2) {
+                        let key = 1 + src.below64(next_key.max(2));
+                        steps.push(Step::Op(SetOp { key, stamp: Stamp { secs: t, frac: 0, counter: 7, node }, delete: src.chance(1, 2) }, 1 - source));
+                    }
+                },
+            }
+            if src.chance(1, 2) {
+                steps.push(Step::Purge);
+            }
+        }
+        steps.push(Step::Purge);
+        Case { steps }
+    }
+
+    fn run(&self, case: &Case) -> Outcome {
+        run(case)
+    }
+
+    fn describe(&self, case: &Case) -> Value {
+        json!(case
+            .steps
+            .iter()
+            .map(|s| match s {
+                Step::Op(o, src) => {
+                    let mut j = o.json();
+                    j["source"] = json!(src);
+                    j
+                },
+                Step::Bulk(ops, src) => json!({"bulk": ops.len(), "first": ops.first().map(|o| o.json()), "last": ops.last().map(|o| o.json()), "source": src}),
+                Step::Purge => json!("purge"),
+            })
+            .collect::<Vec<_>>())
+    }
+
+    fn rule(&self) -> &'static str {
+        "one OrSWotSet<2>, 2-7 stages from 1-3 origins stepping 1 s .. 2 h: bulks of 1 .. 9000 deletes or inserts (sizes on and around \
+         powers of two; one shared stamp or ascending counters) on fresh or existing keys, single recent operations on both sources, \
+         purges at generated points and at the end; oracle at each purge as in part `local` (live unchanged, returned list = exactly \
+         the tombstones that vanished, each with its stamp, none live); rejection probes on a sample of the purged tombstones; \
+         non-trivial = one purge removed more than 1000 tombstones while at least one other tombstone had to stay"
+    }
+}
+
 fn run(case: &Case) -> Outcome {
     let mut set = Set::default();
     let mut purged: Vec<(u64, Stamp)> = vec![];
     let mut purge_calls = 0;
+    let mut big_partial_purge = false;
+    let bulk = case.steps.iter().any(|s| matches!(s, Step::Bulk(..)));
     for (i, step) in case.steps.iter().enumerate() {
         match step {
             Step::Op(op, source) => {
                 apply(&mut set, *source, op);
+            },
+            Step::Bulk(ops, source) => {
+                for op in ops {
+                    apply(&mut set, *source, op);
+                }
             },
             Step::Purge => {
                 purge_calls += 1;
@@ -204,6 +350,9 @@ fn run(case: &Case) -> Outcome {
                     );
                     purged.push((*k, t));
                 }
+                if removed.len() > 1000 && !expect_dead.is_empty() {
+                    big_partial_purge = true;
+                }
                 ensure!(
                     after.dead == expect_dead,
                     "purge-removed-other",
@@ -214,11 +363,26 @@ fn run(case: &Case) -> Outcome {
                 );
             },
         }
-        for (k, t) in &purged {
-            check_rejected(&set, *k, *t, &format!("after step {i}"))?;
+        if purged.len() <= 24 {
+            for (k, t) in &purged {
+                check_rejected(&set, *k, *t, &format!("after step {i}"), bulk)?;
+            }
+        } else {
+            // a sample: the first, the last and four in between
+            let n = purged.len();
+            for j in [0, n / 5, 2 * n / 5, 3 * n / 5, 4 * n / 5, n - 1] {
+                let (k, t) = purged[j];
+                check_rejected(&set, k, t, &format!("after step {i}"), bulk)?;
+            }
         }
     }
     let mut labels = vec![];
+    if big_partial_purge {
+        labels.push("purged>1000-while-others-stay");
+    }
+    if purged.len() > 1000 {
+        labels.push("purged>1000");
+    }
     if !purged.is_empty() {
         labels.push("purged>=1");
     }
@@ -228,9 +392,9 @@ fn run(case: &Case) -> Outcome {
     if purge_calls >= 3 {
         labels.push("purge_calls>=3");
     }
-    Ok(Pass { nontrivial: !purged.is_empty(), labels })
+    Ok(Pass { nontrivial: if bulk { big_partial_purge } else { !purged.is_empty() }, labels })
 }
 
 pub fn parts() -> Vec<Box<dyn DynPart>> {
-    vec![Box::new(Gen::new(Local, 1_000_000, 60_000_000))]
+    vec![Box::new(Gen::new(Local, 1_000_000, 60_000_000)), Box::new(Gen::new(LocalBulk, 10_000, 500_000))]
 }
